@@ -10,10 +10,11 @@ import Spec.Args
 import Spec.RasterJudge
 import Spec.Purity
 import Spec.RasterLJudge
+import Spec.Decoders
 
 namespace Spec
 
-def handlers : List (String → Req → Option String) := [handleCore, Vector.handle, Helpers.handle, Routes.handle, Args.handle, Raster.handle, Purity.handle, RasterL.handle]
+def handlers : List (String → Req → Option String) := [handleCore, Vector.handle, Helpers.handle, Routes.handle, Args.handle, Raster.handle, Purity.handle, RasterL.handle, Decoders.handle]
 
 def judgeLine (line : String) : String :=
   let (cmd, r) := parseReq line
